@@ -685,7 +685,7 @@ Proof.
   assert (H1B : 1 <= B) by lia. pose proof (ensure_BI 1 st H1B HB) as H1.
   destruct (ensure 1 st) as [st1 [[|]|e|]]; cbn [fst] in *; try exact H1.
   pose proof (consume_BI st1 1 H1) as H2. destruct (peek_header_BI c _ H2) as [H3 _].
-  destruct (peek_header c (consume st1 1)) as [st3 [h|e|]]; cbn [fst] in *; try exact H3. apply IH, H3.
+  destruct (peek_header c (consume st1 1)) as [st3 [h|e|]]; cbn [fst] in *; try exact H3. destruct e; cbn [fst]; try (apply IH, H3). exact H3.
 Qed.
 
 Lemma try_recover_BI st : BI st -> BI (fst (try_recover c st)).
